@@ -107,8 +107,10 @@ Fixpoint insert (k v : str) (d : db) : db :=
   | [] => [(k, v)]
   | (k', v') :: r => if str_eqb k k' then (k, v) :: r else (k', v') :: insert k v r
   end.
+(* del d[k]: keys of a dict are unique, so dropping every binding of k is the same thing
+   on every state built by insert / remove *)
 Fixpoint remove (k : str) (d : db) : db :=
-  match d with [] => [] | (k', v') :: r => if str_eqb k k' then r else (k', v') :: remove k r end.
+  match d with [] => [] | (k', v') :: r => if str_eqb k k' then remove k r else (k', v') :: remove k r end.
 
 Record cfg := Cfg { domain : str; own_nq : str }.       (* IdentDB.domain, IdentDB.name_qualifier *)
 
@@ -230,16 +232,22 @@ Definition find_nameid (d : db) (u : str) (f : filt) : result (list nameid) :=
 (* construct_nameid(userid, local_policy, sp_name_qualifier, name_id_policy, name_qualifier)
    lp = what local_policy.get_nameid_format returns (None: no local policy);
    pol = (format, sp_name_qualifier) of the NameIDPolicy (None: no policy) *)
-Definition construct_nameid (c : cfg) (d : db) (u : str) (lp : option str) (sp : option str)
-           (pol : option (option str * option str)) (nq : option str) (cands : list str) : db * out :=
+Definition construct_args (c : cfg) (lp sp : option str) (pol : option (option str * option str)) (nq : option str)
+  : option (str * option str * option str) :=
   let sp' := match pol with Some (_, psp) => if truthy psp then psp else sp | None => sp end in
   let fmt := match pol with
              | Some (Some (x :: f), _) => Some (x :: f)
              | _ => lp
              end in
   match fmt with
+  | None => None                                                   (* SAMLError("Unknown NameID format") *)
+  | Some f => Some (f, sp', if truthy nq then nq else Some (own_nq c))
+  end.
+Definition construct_nameid (c : cfg) (d : db) (u : str) (lp : option str) (sp : option str)
+           (pol : option (option str * option str)) (nq : option str) (cands : list str) : db * out :=
+  match construct_args c lp sp pol nq with
   | None => (d, OErr (s2l "SAMLError"))
-  | Some f => get_nameid c d u f sp' (if truthy nq then nq else Some (own_nq c)) cands
+  | Some (f, sp', nq') => get_nameid c d u f sp' nq' cands
   end.
 
 Fixpoint map_vals (vals : list str) (pfmt psp : option str) : result (option nameid) :=
